@@ -57,7 +57,11 @@ type TSummary struct {
 	Escapes     map[string][]TSite  // label -> escape sites (stored to field/global, sent, captured by go)
 	Ret         map[int]labelSet    // result index -> labels
 	FieldStores map[string]labelSet // field label -> labels of values stored into the field
-	Unmodelled  []TSite             // external/dynamic calls receiving tracked values
+	// FieldAliasStores: like FieldStores, but only the labels of memory the
+	// stored value itself may share (its alias relation), without the labels
+	// of references its elements hold: tells `f = items` from `f = append(f, items...)`.
+	FieldAliasStores map[string]labelSet
+	Unmodelled       []TSite // external/dynamic calls receiving tracked values
 	// Releases (only with TaintEngine.PoolRelease): label -> sync.Pool.Put sites
 	// that give memory with that label back to a pool. With the option the Put
 	// is NOT recorded as an escape, so Escapes holds real escapes only.
@@ -81,7 +85,7 @@ type TRetFunc struct {
 }
 
 func newTSummary() *TSummary {
-	return &TSummary{Writes: map[string][]TSite{}, Escapes: map[string][]TSite{}, Ret: map[int]labelSet{}, FieldStores: map[string]labelSet{}, Releases: map[string][]TSite{}, Unknown: map[string][]TSite{}, RetFuncs: map[int][]TRetFunc{}}
+	return &TSummary{Writes: map[string][]TSite{}, Escapes: map[string][]TSite{}, Ret: map[int]labelSet{}, FieldStores: map[string]labelSet{}, FieldAliasStores: map[string]labelSet{}, Releases: map[string][]TSite{}, Unknown: map[string][]TSite{}, RetFuncs: map[int][]TRetFunc{}}
 }
 
 func (s *TSummary) size() int {
@@ -90,6 +94,9 @@ func (s *TSummary) size() int {
 		n += len(v)
 	}
 	for _, v := range s.Escapes {
+		n += len(v)
+	}
+	for _, v := range s.FieldAliasStores {
 		n += len(v)
 	}
 	for _, v := range s.Ret {
@@ -502,6 +509,18 @@ func (s *fnState) applySummary(in ssa.Instruction, callee *ssa.Function, args []
 			s.sink("u", m, in, fmt.Sprintf("via %s: %s at %s", FuncName(s.t.P, callee), w.What, s.t.P.Pos(w.Pos)))
 		}
 	}
+	for f, ls := range cs.FieldAliasStores {
+		if m := s.mapLabels(ls, argAlias, fvAlias); len(m) > 0 {
+			cur := s.sum.FieldAliasStores[f]
+			if cur == nil {
+				cur = labelSet{}
+				s.sum.FieldAliasStores[f] = cur
+			}
+			if cur.addAll(m) {
+				changed = true
+			}
+		}
+	}
 	for f, ls := range cs.FieldStores {
 		m := s.mapLabels(ls, argAlias, fvAlias)
 		if len(m) > 0 {
@@ -700,6 +719,17 @@ func (s *fnState) step(in ssa.Instruction) bool {
 			}
 		case *ssa.FieldAddr:
 			id := fieldIDOfAddr(a)
+			if pure := s.get(x.Val); len(pure) > 0 && id.Type != "" {
+				lbl := "field:" + id.Type + "." + id.Field
+				cur := s.sum.FieldAliasStores[lbl]
+				if cur == nil {
+					cur = labelSet{}
+					s.sum.FieldAliasStores[lbl] = cur
+				}
+				if cur.addAll(pure) {
+					ch = true
+				}
+			}
 			if len(va) > 0 && id.Type != "" {
 				lbl := "field:" + id.Type + "." + id.Field
 				cur := s.sum.FieldStores[lbl]
